@@ -53,7 +53,7 @@ Inductive dunit := Dns | Dus | Dms.
 Inductive icall :=
 | ICmd (c : N)                            (* interface.cmd *)
 | IData (e : dexp)                        (* one interface.data call *)
-| IDataEach (g : bytefn) (grp : N) (e : dexp)
+| IDataEach (g : bytefn) (grp : positive) (e : dexp)
       (* for every byte b of e: the bytes [bapply g b] go out in data calls of [grp] bytes each *)
 | IDataX (v n : N)                        (* interface.data_x_times *)
 | IWait (busy_low : bool)                 (* interface.wait_until_idle *)
@@ -120,7 +120,9 @@ Definition data_x_times (v n : N) : M unit := emit (IDataX v n).
 Definition wait_idle (busy_low : bool) : M unit := emit (IWait busy_low).
 Definition wait_idle_cmd (busy_low : bool) (c : N) : M unit := emit (IWaitCmd busy_low c).
 Definition reset (a b : N) : M unit := emit (IReset a b).
-Definition data_each (g : bytefn) (grp : N) (e : dexp) : M unit := emit (IDataEach g grp e).
+(** [grp] is the size of each data call, at least 1 *)
+Definition data_each (g : bytefn) (grp : N) (e : dexp) : M unit :=
+  emit (IDataEach g (N.succ_pos (N.pred grp)) e).
 Definition delay_ms (n : N) : M unit := emit (IDelay Dms n).
 Definition delay_us (n : N) : M unit := emit (IDelay Dus n).
 
